@@ -66,8 +66,8 @@ def tree_hash():
     for name in sorted(os.listdir(SRC)):
         if not (name.endswith(".cc") or name.endswith(".hh")):
             continue
-        if name.endswith("Test.cc"):
-            continue
+        if name.endswith("Test.cc") and name not in LIB_SOURCES:
+            continue  # the repo's own test programs are not part of what the checks build
         h.update(name.encode() + b"\0")
         with open(os.path.join(SRC, name), "rb") as f:
             h.update(f.read())
